@@ -330,48 +330,54 @@ func runSubstContra(p *Program, r *RuleResult) {
 		}
 	}
 	type st struct {
-		label string
-		n     map[string]AVal
-		old   map[string]AVal
+		label          string
+		n              map[string]AVal
+		old            map[string]AVal
+		nSelf, oldSelf bool
 	}
 	var states []st
 	chA, chB := aObj("chanA"), aObj("chanB")
-	for _, nInit := range []bool{false, true} {
-		for _, oldKind := range []string{"uninit", "init-same", "init-other"} {
-			if !nInit && oldKind == "init-same" {
-				continue
-			}
-			for _, identEq := range []bool{true, false} {
-				nCh := aNil
-				if nInit {
-					nCh = chA
+	type selfCombo struct{ n, old bool }
+	for _, sc := range []selfCombo{{false, false}, {true, false}, {true, true}, {false, true}} {
+		for _, nInit := range []bool{false, true} {
+			for _, oldKind := range []string{"uninit", "init-same", "init-other"} {
+				if !nInit && oldKind == "init-same" {
+					continue
 				}
-				var oCh AVal
-				switch oldKind {
-				case "uninit":
-					oCh = aNil
-				case "init-same":
-					oCh = chA
-				default:
-					oCh = chB
+				for _, identEq := range []bool{true, false} {
+					nCh := aNil
+					if nInit {
+						nCh = chA
+					}
+					var oCh AVal
+					switch oldKind {
+					case "uninit":
+						oCh = aNil
+					case "init-same":
+						oCh = chA
+					default:
+						oCh = chB
+					}
+					oIdent := "x"
+					if !identEq {
+						oIdent = "y"
+					}
+					ni := "uninit"
+					if nInit {
+						ni = "init"
+					}
+					ie := "equal"
+					if !identEq {
+						ie = "differ"
+					}
+					lbl := fmt.Sprintf("n=%s,old=%s,ident=%s", ni, oldKind, ie)
+					if sc.n || sc.old {
+						lbl += fmt.Sprintf(",n-self=%v,old-self=%v", sc.n, sc.old)
+					}
+					nm, om := mkName("x", nCh), mkName(oIdent, oCh)
+					nm["IsSelf"], om["IsSelf"] = aBool(sc.n), aBool(sc.old)
+					states = append(states, st{label: lbl, n: nm, old: om, nSelf: sc.n, oldSelf: sc.old})
 				}
-				oIdent := "x"
-				if !identEq {
-					oIdent = "y"
-				}
-				ni := "uninit"
-				if nInit {
-					ni = "init"
-				}
-				ie := "equal"
-				if !identEq {
-					ie = "differ"
-				}
-				states = append(states, st{
-					label: fmt.Sprintf("n=%s,old=%s,ident=%s", ni, oldKind, ie),
-					n:     mkName("x", nCh),
-					old:   mkName(oIdent, oCh),
-				})
 			}
 		}
 	}
@@ -411,6 +417,12 @@ func runSubstContra(p *Program, r *RuleResult) {
 		switch {
 		case !okE || undecided:
 			r.add("(*process.Name).Equal / Substitute", construct, Undecided, p.pos(sub.Pos()), "the two predicates do not fold to constants in this abstract state: "+resE.describe())
+		case s.nSelf && !s.oldSelf && rewritten && !isInitSame(s.label):
+			r.add("(*process.Name).Equal / Substitute", construct, Violated, p.pos(sub.Pos()),
+				"a reference to self is rewritten when an ordinary (non-provider) name with the same identifier is substituted: the identifier of a self reference is only its display name (the sender's provider after a receive, the explicit provider of a function), so a later binder that happens to have that identifier turns `self` into a client channel and the process fails with 'close on a client' / sends on the wrong channel")
+		case s.nSelf && equal && !rewritten:
+			// a self reference is never a binder: the converse clause does not apply
+			r.add("(*process.Name).Equal / Substitute", construct, Holds, p.pos(sub.Pos()), fmt.Sprintf("self reference: rewritten=%v equal=%v", rewritten, equal))
 		case rewritten && !equal:
 			r.add("(*process.Name).Equal / Substitute", construct, Violated, p.pos(sub.Pos()),
 				"in this state Substitute rewrites the name although Name.Equal does not equate it with the substituted name: binders (which are protected by Equal) and occurrences disagree, so re-bound names are captured or a callee's placeholder captures a caller's live channel of the same identifier")
@@ -568,3 +580,5 @@ func runBinderInstantiated(p *Program, r *RuleResult) {
 	}
 	r.count("binder instantiations required", n)
 }
+
+func isInitSame(label string) bool { return strings.Contains(label, "old=init-same") }
